@@ -36,6 +36,9 @@ def configs(tier):
             for m in (1, 2):
                 var.append({"objs": o, "prod": 1, "cons": c, "m": m, "live": 1})    # live_count reference
                 var.append({"objs": o, "prod": 1, "cons": c, "m": m, "dis": 1})     # release disable/enable
+    for o in (1, 2):
+        for m in (1, 2):
+            var.append({"objs": o, "prod": 1, "cons": 1, "m": m, "share": 1})               # two concurrent releasers of one object
     for o in (2, 3):
         for p in (1, 2):
             for c in (1, 2):
